@@ -47,17 +47,28 @@ func VerifC01_ConstructedSubscriber() {
 		}
 		return cid.Undef, errors.New("unknown advertisement")
 	})
-	s, err := NewSubscriber(nil, fsLsys(w.st),
+	maxAsync := verif_Choose("maxAsync", 0, 1)
+	options := []Option{
 		AdsDepthLimit(adl), FirstSyncDepth(fsd), SegmentDepthLimit(seg), StrictAdsSelector(true),
 		BlockHook(func(p peer.ID, c cid.Cid, a SegmentSyncActions) {
 			log = append(log, c)
 			prev(p, c, a)
 		}),
-		RecvAnnounce(""), IdleHandlerTTL(time.Hour), MaxAsyncConcurrency(verif_Choose("maxAsync", 0, 1)))
+		RecvAnnounce(""), IdleHandlerTTL(time.Hour), MaxAsyncConcurrency(maxAsync)}
+	if verif_Bool("optionsInReverseOrder") {
+		// options are independent of the order they are listed in
+		for i, j := 0, len(options)-1; i < j; i, j = i+1, j-1 {
+			options[i], options[j] = options[j], options[i]
+		}
+	}
+	s, err := NewSubscriber(nil, fsLsys(w.st), options...)
 	verif_Assert(err == nil && s != nil, "a subscriber is created from valid options")
 	if s == nil {
 		return
 	}
+	// (the limiter itself is exercised by VerifC08_AnnounceBursts; here: the configured
+	// maximum reaches it whatever the option order)
+	verif_Assert(cap(s.syncSem) == maxAsync, "the configured maximum of concurrent announce-triggered syncs is in force")
 	depth := adl
 	if fsd > 0 {
 		depth = fsd // first sync of this publisher
